@@ -336,3 +336,96 @@ def norm_apos(toks):
 def norm_ws(toks):
     """additionally drop blanks inside string literal tokens (whitespace kept/dropped differently when stringizing)"""
     return [_re.sub(r"[ \t]+", "", t) if t.endswith('"') and len(t) > 1 else t for t in norm_apos(toks)]
+
+
+# ---- closed #/##-free fragment (three-way: model, cppcheck -E, gcc -E)
+MX_SYMS = ["+", "-", "*", "1", "42", "0x1F", "<", "==", "!", ";", "[", "]", "{", "}"]
+MX_IDS = ["foo", "bar", "n"]
+
+
+def mx_items(rng, depth, objs, fns, nparams, maxlen=4):
+    """items of a closed sequence: objs/fns = usable macro names [(name, arity)]"""
+    out = []
+    for _ in range(rng.randint(0, maxlen)):
+        r = rng.random()
+        if nparams and r < 0.3:
+            out.append(("P", rng.randrange(nparams)))
+        elif objs and r < 0.45:
+            out.append(("I", rng.choice(objs)))
+        elif fns and depth > 0 and r < 0.7:
+            name, ar = rng.choice(fns)
+            out.append(("C", name, [mx_items(rng, depth - 1, objs, fns, nparams, 3) for _ in range(ar)]))
+        elif depth > 0 and r < 0.75:
+            out.append(("C", rng.choice(MX_IDS), [mx_items(rng, depth - 1, objs, fns, nparams, 2) for _ in range(rng.randint(0, 2))]))
+        elif r < 0.85:
+            out.append(("I", rng.choice(MX_IDS)))
+        else:
+            out.append(("S", rng.choice(MX_SYMS)))
+    return out
+
+
+def gen_mx(rng, recursive):
+    n = rng.randint(2, 6)
+    decl = []
+    for i in range(n):
+        if rng.random() < 0.35:
+            decl.append(("O%d" % i, None))
+        else:
+            decl.append(("F%d" % i, rng.randint(0, 3)))
+    table = []
+    for i, (name, ar) in enumerate(decl):
+        vis = decl if recursive else decl[:i]
+        objs = [m for m, a in vis if a is None]
+        fns = [(m, a) for m, a in vis if a is not None]
+        table.append((name, ar, mx_items(rng, 2, objs, fns, ar or 0)))
+    objs = [m for m, a in decl if a is None]
+    fns = [(m, a) for m, a in decl if a is not None]
+    uses = []
+    for _ in range(6):
+        u = mx_items(rng, rng.randint(1, 4), objs, fns, 0, 3)
+        if not any(x[0] in "IC" and x[1][0] in "OF" for x in u) and fns:
+            name, ar = rng.choice(fns)
+            u.append(("C", name, [mx_items(rng, 2, objs, fns, 0, 3) for _ in range(ar)]))
+        uses.append(u)
+    return table, uses
+
+
+def mx_render(items):
+    out = []
+    for x in items:
+        if x[0] == "S" or x[0] == "I":
+            out.append(x[1])
+        elif x[0] == "P":
+            out.append("p%d" % x[1])
+        else:
+            out.append(x[1] + "(" + ", ".join(mx_render(a) for a in x[2]) + ")")
+    return " ".join(out)
+
+
+def mx_fields(items):
+    out = []
+    for x in items:
+        if x[0] == "S":
+            out.append(b"S" + x[1].encode())
+        elif x[0] == "I":
+            out.append(b"I" + x[1].encode())
+        elif x[0] == "P":
+            out.append(b"P%d" % x[1])
+        else:
+            out.append(b"C" + x[1].encode())
+            for a in x[2]:
+                out += [b"["] + mx_fields(a) + [b"]"]
+            out.append(b")")
+    return out
+
+
+def mx_case(table, use):
+    f = [b"mx", b"%d" % len(table)]
+    for name, ar, body in table:
+        f += [name.encode(), b"O" if ar is None else b"F%d" % ar] + mx_fields(body) + [b"]"]
+    return f + mx_fields(use)
+
+
+def mx_defs(table):
+    return ["#define %s%s %s" % (name, "" if ar is None else "(" + ", ".join("p%d" % k for k in range(ar)) + ")", mx_render(body))
+            for name, ar, body in table]
